@@ -311,7 +311,8 @@ theorem CB.of_dom {s : State} (h : CB d0 s) {d' : Dom} {t : List (SinkOp × Outp
       obtain ⟨h1, h2, h3, h4⟩ := h.h.af x t hx
       exact ⟨h1.ext he, by rw [nm_ext he h1]; exact h2, h3, h4⟩,
     fun x hx => (h.h.head x hx).ext he, fun x hx => (h.h.form x hx).ext he,
-    fun x hx => (h.h.ctx x hx).ext he⟩
+    fun x hx => (h.h.ctx x hx).ext he,
+    fun x hx => (h.h.headTc x hx).ext he hk (h.h.head x hx)⟩
   l := ⟨h.l.mode, h.l.orig, h.l.tm⟩
 
 theorem GrowRel.of_nonTree {s : State} {op : SinkOp} {d' : Dom} {out : Output} (hnt : nonTree op = true)
@@ -387,7 +388,7 @@ theorem CB.of_shrink {s s' : State} (h : CB d0 s) (hd : s'.dom = s.dom) (ht : s'
     fun x hx => by rw [hd]; exact h.h.open_tc x (ho x hx),
     fun x t hx => by rw [hd]; exact h.h.af x t (ha _ hx),
     fun x hx => by rw [hd]; exact h.h.head x (hh x hx), fun x hx => by rw [hd]; exact h.h.form x (hf x hx),
-    fun x hx => by rw [hd]; exact h.h.ctx x (hc x hx)⟩
+    fun x hx => by rw [hd]; exact h.h.ctx x (hc x hx), fun x hx => by rw [hd]; exact h.h.headTc x (hh x hx)⟩
   l := hl
 
 /-! ### the walker -/
@@ -407,10 +408,10 @@ syntax "cp_leaf" : tactic
 macro_rules
   | `(tactic| cp_leaf) => `(tactic|
     first
-      | exact cp_pure_nil _
+      | with_reducible exact cp_pure_nil _
       | exact cp_panicAt
       | exact cp_fuelOut
-      | exact cp_pure _ (by intro x hx; first | (cases hx; done) | (simp only [List.mem_singleton, List.mem_cons, List.not_mem_nil, or_false] at hx; subst hx; ctx_mem)))
+      | with_reducible exact cp_pure _ (by intro x hx; first | (cases hx; done) | (simp only [List.mem_singleton, List.mem_cons, List.not_mem_nil, or_false] at hx; subst hx; ctx_mem)))
 
 syntax "cp_step" : tactic
 macro_rules
@@ -420,7 +421,7 @@ macro_rules
       | with_reducible apply cp_getS_bind
       | with_reducible apply cp_bind
       | with_reducible apply cp_ite
-      | intro _
+      | with_reducible intro _
       | dsimp only)
 
 syntax "cp_walk" : tactic
